@@ -51,8 +51,10 @@ class Goldens:
     def _run(self, reqs, variant, hashseed, aslr):
         plan = {"world": "golden", "variant": variant, "requests": reqs, "hashseed": hashseed, "aslr": aslr}
         if variant == "B":
-            # one more way in which "the process" may differ: asserts compiled out, another TZ / terminal
-            plan["env"] = {"PYTHONOPTIMIZE": "1", "TZ": "Pacific/Auckland", "COLUMNS": "33", "NO_COLOR": "1"}
+            # one more way in which "the process" may differ: asserts compiled out, another user / TZ / terminal
+            plan["env"] = {"PYTHONOPTIMIZE": "1", "TZ": "Pacific/Auckland", "COLUMNS": "33", "NO_COLOR": "1", "USER": "bob", "LOGNAME": "bob", "HOME": "/home/bob", "HOSTNAME": "hostB", "TERM": "xterm-256color", "LANG": "en_US.UTF-8", "SOURCE_DATE_EPOCH": "1000000000"}
+        else:
+            plan["env"] = {"USER": "alice", "LOGNAME": "alice", "HOME": "/home/alice", "HOSTNAME": "hostA", "TERM": "vt100", "TZ": "UTC"}
         r = runner.run_plan(plan, timeout=600)
         if r["status"] != "ok":
             raise runner.HarnessFailure("golden process failed: %r" % (r,))
